@@ -86,6 +86,20 @@ fn sig_hash(s: &str) -> String {
     format!("{:08x}", crate::rng::fnv1a(crate::rng::FNV_INIT, s.as_bytes()) as u32)
 }
 
+/// First scenario seed of a batch. VERIF_SEED=1 (the default) explores scenario seeds 1, 2, 3, ...;
+/// any other value starts a range far away from it (and above the directed scenarios' numbers),
+/// so that two batches under different VERIF_SEED values share no scenario.
+pub fn scenario_base(verif_seed: u64) -> u64 {
+    if verif_seed == 1 {
+        return 1;
+    }
+    let mut z = verif_seed.wrapping_add(0x9E37_79B9_7F4A_7C15);
+    z = (z ^ (z >> 30)).wrapping_mul(0xBF58_476D_1CE4_E5B9);
+    z = (z ^ (z >> 27)).wrapping_mul(0x94D0_49BB_1331_11EB);
+    z ^= z >> 31;
+    (z >> 16) | (1 << 48)
+}
+
 pub fn run_check(prop: &str, tier: Tier, seed: u64, runs: Option<u64>, workers: usize) -> i32 {
     if !props::PROPS.contains(&prop) {
         eprintln!("HARNESS: property {} has no check", prop);
@@ -106,7 +120,7 @@ pub fn run_check(prop: &str, tier: Tier, seed: u64, runs: Option<u64>, workers: 
     let spec = BatchSpec {
         prop: prop.to_string(),
         tier,
-        base_seed: seed,
+        base_seed: scenario_base(seed),
         runs,
         workers,
         deadline: Some(start + if tier == Tier::Quick { Duration::from_secs(240) } else { Duration::from_secs(3 * 3600) }),
@@ -384,7 +398,7 @@ fn write_evidence(
     {
         let mut w = Worker::spawn(prop, tier);
         for s in 0..2u64 {
-            if let Some(d) = doc_for(&mut w, prop, seed.wrapping_add(s), directed) {
+            if let Some(d) = doc_for(&mut w, prop, scenario_base(seed).wrapping_add(s), directed) {
                 samples.push(sample_of(&d));
             }
         }
@@ -400,7 +414,7 @@ fn write_evidence(
             "distinct_nontrivial": agg.distinct_nontrivial.len(),
             "rule": props::rule(prop),
             "samples": samples,
-            "seeds": format!("{}..{} plus {} directed scenarios", seed, seed.wrapping_add(agg.evaluations.saturating_sub(directed.len() as u64)), directed.len()),
+            "seeds": format!("scenario seeds {}..{} (VERIF_SEED={}) plus {} directed scenarios", scenario_base(seed), scenario_base(seed).wrapping_add(agg.evaluations.saturating_sub(directed.len() as u64)), seed, directed.len()),
             "runs_by_configuration": {"cfg0_quiet": agg.by_cfg[0], "cfg1_benign": agg.by_cfg[1], "cfg2_hostile": agg.by_cfg[2]},
             "nontrivial_runs": agg.nontrivial,
             "distinct_schedules": agg.distinct_schedules.len(),
